@@ -88,7 +88,7 @@ UNITS = {
                             for f in ['put', 'get', 'get_mut', 'peek', 'peek_mut', 'contains', 'remove', 'purge', 'len', 'cap', 'is_empty', 'move_to_frequent',
                                       '{recent,frequent,ghost}_len', '{recent,frequent,ghost}_{iter,iter_lru,iter_mut,iter_lru_mut,keys,keys_lru,values,values_lru,values_mut,values_lru_mut}', 'drop']],
                  assumptions=SHIM_ASSUMPTIONS),
-    'K-ARC': dict(engine='kani', jobs=5, files=['harness_adaptive.rs'], support_files=['gen.rs'],
+    'K-ARC': dict(engine='kani', jobs=6, files=['harness_adaptive.rs'], support_files=['gen.rs'],
                   module={'harness_adaptive.rs': 'lru::adaptive::verif_hooks::harness'},
                   n=dict(quick=1, thorough=2), bound='size in 1..={N}, p in 0..=size, each of the four lists <= {N} entries',
                   timeout=dict(quick=1800, thorough=7200),
